@@ -390,7 +390,10 @@ func (e *Encoder) auditAtomicOp(op string, cm *ssa.CallCommon, ft types.Type, lo
 		goal := a.allowedFormula(c, ft, args[1].S, false, args[2].S)
 		e.addObl("atomic "+what+" CompareAndSwap", fmt.Sprintf("CompareAndSwap(%s, %s) on %s performs one of the allowed transitions {%s}", cm.Args[1].Name(), cm.Args[2].Name(), what, a.transText()), pc, goal)
 	case "Store", "Swap":
-		goal := a.allowedFormula(c, ft, "", true, args[1].S)
-		e.addObl("atomic "+what+" "+op, fmt.Sprintf("%s(%s) on %s is allowed from every state by {%s}", op, cm.Args[1].Name(), what, a.transText()), pc, goal)
+		// a Store is checked as a transition from the value this thread last observed (the field's value in the
+		// thread's sequential view: what it loaded on this path, or arbitrary when it never looked)
+		obs := e.load(st, loc, ft)
+		goal := a.allowedFormula(c, ft, obs.S, false, args[1].S)
+		e.addObl("atomic "+what+" "+op, fmt.Sprintf("%s(%s) on %s, from the value this thread last observed, is one of the allowed transitions {%s}", op, cm.Args[1].Name(), what, a.transText()), pc, goal)
 	}
 }
